@@ -116,6 +116,13 @@ var expectedRefactorAlarms = map[string]string{
 	"X05-5": "handshake errors through formatting helpers",
 	// a known function changes its signature (parameters bundled in a new struct)
 	"U07-4": "cleanSequence takes a struct",
+	// round Y, "how values reach their use" (DESIGN §7): 40 of 50 are silent; what still alarms, by kind —
+	// a constant, a field or a buffer that a rule reads at its use now arrives through the parameter of a helper or of the anchor itself
+	"Y01-2": "Max defaults through txMaxDefaults(n, idMask)", "Y06-1": "acknowledgements composed by appendAck(buf, type, id)", "Y06-2": "onPUBREL receives the payload",
+	"Y08-1": "four persisted publishes through publishPersisted(idSpace, head, out)", "Y08-2": "applySeqNoAndEnqueue receives the queue channel", "Y09-5": "cleanSequence receives the mask",
+	"Y02-2": "termCallbacks goroutines receive seqSem and queue", "Y03-2": "writeBuffersTo becomes a method that loads PauseTimeout",
+	// a condition hoisted into a bool local ahead of unrelated branches, or a decode loop driven by a flag
+	"Y01-5": "Will condition hoisted into hasWill", "Y04-3": "remaining-length decode as for more := true; more; {…}",
 }
 
 func runCase(c stCase, repo, verif, self string) stResult {
